@@ -80,16 +80,16 @@ def cb_decorate(cases, rnd, stream_frac=0.4):
 # ------------------------------------------------------------------------------------------------ C16
 
 def opt_consts(tree="std", pu=1, ms=6, mn=1, mp=1, w=2, types=("T1", "cb"), nc=1, mco=2, cw=3, mins=1, fix=False, minco=1, kind="graph",
-               cbfix=True, bycomp=False, callmode="subsets", intr=False, restoredrops=False, bundle=1, modes=("invoke",), keyed=False, firstonly=False, keyeddrops=False):
+               cbfix=True, bycomp=False, callmode="subsets", intr=False, restoredrops=False, bundle=1, modes=("invoke",), keyed=False, firstonly=False, keyeddrops=False, deduphead=False):
     return {"Tree": tree, "PU": pu, "MaxStmts": ms, "MaxNew": mn, "MaxPer": mp, "Window": w, "Types": list(types), "NCalls": nc,
             "MaxCallOpts": mco, "CallWindow": cw, "MinStmts": mins, "CopyFix": fix, "MinCallOpts": minco, "SubKind": kind,
             "CbCopyFix": cbfix, "SubByComponent": bycomp, "CallMode": callmode, "AllowIntr": intr, "RestoreDropsOpts": restoredrops, "MaxBundle": bundle, "Modes": list(modes), "AllowKeyed": keyed,
-            "FirstOnly": firstonly, "KeyedStreamDrops": keyeddrops}
+            "FirstOnly": firstonly, "KeyedStreamDrops": keyeddrops, "DedupIgnoresHead": deduphead}
 
 
 def opt_model(name, *, fix, timeout=600, workers=4, **kw):
     c = opt_consts(fix=fix, **kw)
-    cfg = "mc_opt_%s_%s%s%s.cfg" % (name, "fix" if fix else "asis", "" if kw.get("cbfix", True) else "_cbasis", "_bycomp" if kw.get("bycomp") else "_restoredrops" if kw.get("restoredrops") else "_firstonly" if kw.get("firstonly") else "_keyeddrops" if kw.get("keyeddrops") else "")
+    cfg = "mc_opt_%s_%s%s%s.cfg" % (name, "fix" if fix else "asis", "" if kw.get("cbfix", True) else "_cbasis", "_bycomp" if kw.get("bycomp") else "_restoredrops" if kw.get("restoredrops") else "_firstonly" if kw.get("firstonly") else "_keyeddrops" if kw.get("keyeddrops") else "_deduphead" if kw.get("deduphead") else "")
     return vlib.tlc("Options", cfg, files={cfg: cfg_text(c, ("RuleOK",))}, workers=workers, timeout=timeout, heap="4g")
 
 
